@@ -31,9 +31,10 @@ func (f *GEDCOMFormatter) Write(result interface{}) error {
 	}
 
 	if x, ok := result.(gedcom.GEDCOMStringer); ok {
-		f.Writer.Write([]byte(x.GEDCOMString(0)))
+		// The error of the writer is the error of the formatter.
+		_, err := f.Writer.Write([]byte(x.GEDCOMString(0)))
 
-		return nil
+		return err
 	}
 
 	return fmt.Errorf("%s does not implement gedcom.GEDCOMStringer", t.Type())
